@@ -17,15 +17,16 @@ def pdg_nc(q, pv, Q2, s2w, mz2, lam, sgn, pc, process):
     return -2 * e * ga * (gae + sgn * lam * gve) * eta + 2 * gv * ga * (2 * gve * gae + sgn * lam * (gve**2 + gae**2)) * eta**2
 
 
-def cc_expected(ckm2, nf, projectile, pv):
-    """pid -> LO CC weight for F2/FL-like (pv False) or F3 (pv True) of the light observable"""
+def cc_expected(ckm2, nf, projectile, pv, hq=0):
+    """pid -> LO CC weight for F2/FL-like (pv False) or F3 (pv True) of the light observable, or
+    (hq = 4, 5) of a massless single heavy flavour: only CKM entries whose heavier quark is hq"""
     ups, downs = [2, 4, 6], [1, 3, 5]
     out = {}
     plus_is_odd = projectile in ("positron", "neutrino")
     for q in range(1, nf + 1):
         w = 0.0
         for p in downs if q % 2 == 0 else ups:
-            if max(q, p) <= nf:
+            if (max(q, p) <= nf) if hq == 0 else (max(q, p) == hq):
                 u, d = (q, p) if q % 2 == 0 else (p, q)
                 w += ckm2[ups.index(u)][downs.index(d)]
         s = 1 if (q % 2 == 1) == plus_is_odd else -1
@@ -49,20 +50,24 @@ def search_lo(chk, r, n):
         k = r.randrange(2, len(grid) - 1)
         x = grid[k]
         t = cards.theory(PTO=0, FNS="ZM-VFNS", **th_kw)
-        o = cards.obs({f"{kind}_light": [dict(x=x, Q2=Q2)]}, prDIS=process, ProjectileDIS=proj, interpolation_xgrid=grid, **ob_kw)
+        nf0 = 3 + sum(1 for m, kk in ((t["mc"], t["kcThr"]), (t["mb"], t["kbThr"]), (t["mt"], t["ktThr"])) if (m * kk) ** 2 <= Q2)
+        # light, or a single heavy flavour that is already massless at this Q2 (single-flavour kernels)
+        hq = r.choice([0, 0] + [h for h in (4, 5) if h <= nf0])
+        flname = {0: "light", 4: "charm", 5: "bottom"}[hq]
+        o = cards.obs({f"{kind}_{flname}": [dict(x=x, Q2=Q2)]}, prDIS=process, ProjectileDIS=proj, interpolation_xgrid=grid, **ob_kw)
         out = realrun.run(t, o)
-        res = out[f"{kind}_light"][0]
+        res = out[f"{kind}_{flname}"][0]
         op = res.orders[(0, 0, 0, 0)][0]
         nf = 3 + sum(1 for m, kk in ((t["mc"], t["kcThr"]), (t["mb"], t["kbThr"]), (t["mt"], t["ktThr"])) if (m * kk) ** 2 <= Q2)
         pv = kind in ("F3", "gL", "g4")
         exp = np.zeros_like(op)
         if process == "CC":
             ckm2 = (np.array([float(v) for v in t["CKM"].split()]) ** 2).reshape(3, 3)
-            for pid, w in cc_expected(ckm2, nf, proj, pv).items():
+            for pid, w in cc_expected(ckm2, nf, proj, pv, hq).items():
                 exp[realrun.BASIS.index(pid), k] = x * w
         else:
             sgn = 1 if proj == "positron" else -1
-            for q in range(1, nf + 1):
+            for q in (range(1, nf + 1) if hq == 0 else [hq]):
                 w = pdg_nc(q, pv, Q2, t["SIN2TW"], t["MZ"] ** 2, o["PolarizationDIS"], sgn, o["PropagatorCorrection"], process)
                 exp[realrun.BASIS.index(q), k] = x * w
                 exp[realrun.BASIS.index(-q), k] = x * (-w if pv else w)
@@ -71,8 +76,8 @@ def search_lo(chk, r, n):
             exp[:] = 0.0
         scale = max(1.0, float(np.abs(exp).max()))
         d = float(np.abs(op - exp).max())
-        sample = dict(kind=kind, process=process, projectile=proj, x=x, Q2=Q2, node=k, nf=nf, theory=th_kw, obs=ob_kw, maxdiff=d)
-        chk.search_case("lo_operator_vs_pdg", d <= 1e-9 * scale, what=f"LO {kind} {process} {proj} operator != x*w*delta", data=sample, sample=sample, nontrivial=bool(np.abs(exp).max() > 0))
+        sample = dict(kind=kind, flavor=flname, process=process, projectile=proj, x=x, Q2=Q2, node=k, nf=nf, theory=th_kw, obs=ob_kw, maxdiff=d)
+        chk.search_case("lo_operator_vs_pdg", d <= 1e-9 * scale, what=f"LO {kind}_{flname} {process} {proj} operator != x*w*delta", data=sample, sample=sample, nontrivial=bool(np.abs(exp).max() > 0))
 
 
 def run(tier):
@@ -82,7 +87,7 @@ def run(tier):
     r = common.rng("C02")
     corr_weights.run_weights(chk, 4000 if thorough else 250, r)
     corr_weights.run_combiner(chk, 120 if thorough else 12, r, stream="combiner_lo")
-    search_lo(chk, r, 150 if thorough else 12)
+    search_lo(chk, r, 200 if thorough else 24)
     chk.assumptions += [
         "spec formulas (PDG NC weights, CKM sums) are transcribed by hand in Properties/C02.lean and, independently, in harness/checks/c02.py",
         "model arithmetic is exact on Rat; IEEE rounding of the Python arithmetic is outside the model (tolerance 1e-10 relative to the largest term)",
